@@ -129,7 +129,8 @@ def equality_test(actual, expected, _exact_strings, _delta):
         actual = set(actual)
 
     # Float comparison
-    if isinstance(expected, float) and isinstance(actual, (float, int)):
+    if ((isinstance(expected, float) and isinstance(actual, (float, int))) or
+            (isinstance(actual, float) and isinstance(expected, (float, int)))):
         error = _delta
         return abs(expected - actual) < error
     # Other numerics
